@@ -11,11 +11,13 @@ PROPS["C14"] = {
     "modelled": "syntax/templates.go: Instantiate (entry points, doSet for parameterless nonterminals, instance worklist, names + suffix, sort by (nonterminal, suffix), Rearrange, group), "
                 "resolveInstance / instance.resolve / allocate (signature in argument order, arguments sorted by parameter), check (short-circuit And/Or, Fatal flag), doExpr for every kind "
                 "(conditional filtering under Choice, lone conditional -> Empty, Empty dropped from sequences, Choice/Optional simplification)",
-    "partial": "PropagateLookaheads (lookahead flags) is not modelled (Tier 2); compiler/syntax.go resolveRef/sortArgs only through the .tm oracle; the whole-grammar statement needs the "
-               "least-fixpoint gluing over instances; arguments inside set expressions (TokenSet.Args) are outside the model",
-    "level_text": "Universal Coq theorems: the instantiator's predicate evaluation equals the declarative evaluation of !, &&, ||, ==, !=; for every expression, environment and instantiator state, "
-                  "the expression doExpr writes for an instance denotes exactly the template denotation under the instance's arguments (explicit and propagated arguments, conditionals, all other kinds), "
-                  "for every interpretation where instance k stands for (nonterminal, bound arguments); Fatal branches are unreachable for bound predicates/arguments. "
+    "partial": "C14_instantiate_correct covers the whole model of Instantiate under the boolean side condition inst_checks (evaluated on every generated model: no Fatal branch, instances pairwise "
+               "different, the (nonterminal, suffix) sort yields a permutation, references in range); not proved: that inst_checks holds for every well-formed model. PropagateLookaheads (lookahead flags) is not "
+               "modelled (Tier 2); compiler/syntax.go resolveRef/sortArgs only through the .tm oracle; arguments inside set expressions (TokenSet.Args) are outside the model",
+    "level_text": "Universal Coq theorems: C14_instantiate_correct - for every templated model passing the boolean side conditions, every instance (nonterminal, bound arguments) created by the model of "
+                  "syntax.Instantiate has in the instantiated table exactly the language its template has under these arguments (both as least solutions; explicit and propagated arguments, conditionals with "
+                  "!, &&, ||, ==, !=, all expression kinds; inputs = instances without arguments); the instantiator's predicate evaluation equals the declarative evaluation; per-expression theorem for doExpr; "
+                  "Fatal branches unreachable for bound predicates/arguments. "
                   "The step-by-step model equals syntax.Instantiate on every generated model, and the implementation's instances (from the API and from compiler.Compile on .tm text) have, on all short words, "
                   "the language of the exhaustively specialised template.",
     "level_note": "Semantics of disabled alternatives as pinned by syntax/templates_test.go (`a ([T] b) a` with T=false is `a a`): a group without enabled alternatives matches the empty string; "
